@@ -3,7 +3,7 @@ import itertools, json, os, subprocess, time
 from ..interp import Interp, Obj, Sym, View, vkey, _Ref, _ValPlace
 from ..build import AnalysisBroken
 from ..lib_c08 import (Fn, Summary, select, Uninterpretable, StepInterp, GuardInterp, int_locals_written_in, find_member_loop,
-                       IterInterp, enclosing_loops, generic_args, may_write_through, HeaderTypes, leaves)
+                       IterInterp, enclosing_loops, generic_args, may_write_through, HeaderTypes, leaves, Ownership, SHARED)
 
 PU = 'parse.c'
 
@@ -36,7 +36,7 @@ def run(P, rep, tier):
     ]
     import traceback
     for rule, f in (('R08.3', r083), ('R08.2', r082), ('R08.1', r081), ('R08.4', r084), ('R08.4', r084_alignas_specifier), ('R08.4', r084_specifier_state), ('R08.5', r085),
-                    ('R08.5', r085_abi_layout)):
+                    ('R08.5', r085_abi_layout), ('R08.6', r086)):
         try:
             f(P, u, rep)
         except AnalysisBroken as ex:          # one rule's anchors vanishing must not silence the others
@@ -1439,7 +1439,18 @@ def _flexible_array(rep, it, paths, where):
                     fl = flex[-1][4] if flex else 0
                     if not (isinstance(fl, (int, bool)) and int(fl) == 1):
                         bad = bad or 'the struct is not marked is_flexible'
-    if not seen:
+    # the type object a declarator/declspec call returned may be a typedef'd (shared) one: converting it in place is not a conversion of this member
+    inplace = None
+    for ctx, out in paths:
+        for e in ctx.events:
+            if (e[0] == 'fstore' and isinstance(e[1], Obj) and e[1].tname == 'Type' and e[1].lazy and e[1].label != 'ty'
+                    and e[2] not in _NOT_DESCRIPTIVE and inplace is None):
+                inplace = (e[2], e[1].label.split('#')[0])
+    if inplace:
+        rep.ob('R08.3', key, False, 'struct_members() writes the field `%s` of the type object that %s() returned for a member instead of giving the member a new type: when the member '
+               'is declared through a typedef (`typedef int V[]; struct S { int n; V data; };`) the typedef\'d type itself is changed, and every later `V x = {1,2,3};` gets the '
+               'changed length/size instead of the one its initializer gives' % inplace, where=where)
+    elif not seen:
         rep.undecided('R08.3', key, 'no path of struct_members() rebuilds a trailing incomplete array with array_of()', where=where)
     else:
         rep.ob('R08.3', key, bad is None, bad or '', where=where)
@@ -1641,6 +1652,72 @@ def r084(P, u, rep):
             rep.undecided('R08.4', '%s:%s:alignas' % (PU, fname), 'no path of %s creates a %s object' % (fname, tname), where=where)
         for k, (ok, msg, facts) in sorted(res.items()):
             rep.ob('R08.4', '%s:%s:alignas/%s' % (PU, fname, k), ok, msg, where=where, facts=facts)
+
+
+# =====================================================================================
+# R08.6 a type object is modified only by the code that created it (or completes its tag)
+# =====================================================================================
+# fields of Type that do not describe the type: declarator() records the declared identifier in whatever object it returns
+# (name, name_pos), the run-time size slot of a VLA type is assigned where its declaration is evaluated (vla_size)
+_NOT_DESCRIPTIVE = ('name', 'name_pos', 'vla_size')
+
+
+def r086(P, u, rep):
+    """The size/alignment/layout of a type is one object shared by every declaration that names the type (typedefs, tags, the
+    ty_* globals, `base`/`ty` fields). Over every function of every unit a flow-sensitive provenance analysis (lib_c08.Ownership)
+    decides, for each store into a Type or Member object, where the object may come from: allocated by this activation (or
+    returned by a function that only returns such objects), the type object of a struct/union tag that a definition completes,
+    reached from a parameter (then the question moves to every caller), or anything else = shared. A store into a shared object
+    changes the layout of every other user of the type."""
+    rep.rule('R08.6', 'a function stores into a Type/Member object (any field that describes the type: kind, size, align, array_len, base, members, offsets, ...) only if the object '
+             'was created by that activation - calloc, a type constructor, copy_type - or is the type of a struct/union tag being completed; never into an object obtained from a '
+             'declarator/declspec result, a `ty`/`base` field or a global, which other declarations share (typedefs, ty_int, ...); the same at every call that hands a type to a '
+             'function storing through its parameter', floor=30)
+    units = P.units()
+    tagged = [r for un in units for r, fs in un.records.items() if any(f == 'tags' for f, _t, _b in fs)]
+    if not tagged or 'Type' not in u.records or 'Member' not in u.records:
+        rep.undecided('R08.6', '%s:scope:tag-table' % PU, 'no record with a `tags` table (or no Type/Member record): the type objects that a definition may complete are not recognisable')
+        return
+    try:
+        own = Ownership(units, ('Type', 'Member'), ('Type',), tag_field='tags', skip_fields=_NOT_DESCRIPTIVE)
+    except RecursionError:
+        raise AnalysisBroken('expression nesting too deep for the ownership analysis')
+    unit_of = {un.name: un for un in units}
+
+    def pname(fn, i):
+        for un in units:
+            ps = un.params(fn) if (fn in un.functions) else None
+            if ps is not None:
+                return (ps[i].name or 'arg%d' % (i + 1)) if i < len(ps) else 'arg%d' % (i + 1)
+        return 'arg%d' % (i + 1)
+
+    what_shared = ('an object it did not create (reached through a `Type *` field or a global, or returned by a call that may yield an existing type: a typedef\'d type, '
+                   'ty_int, the type of another declaration)')
+    for (un, fn), stores in sorted(own.stores.items()):
+        for rec, field, atoms, line in sorted(stores, key=lambda x: (x[0], x[1])):
+            key = '%s:%s:owned-object-write/%s.%s' % (un, fn, rec, 'whole-object' if field == '*' else field)
+            where = '%s:%d' % (un, line)
+            if not atoms:
+                rep.undecided('R08.6', key, 'the analysis found no object that the pointer stored through could point to', where=where)
+                continue
+            fld = 'every field' if field == '*' else 'the field `%s`' % field
+            rep.ob('R08.6', key, SHARED not in atoms,
+                   '%s() stores into %s of a %s object that may be %s: the change is seen by every other declaration and expression that uses the same type object '
+                   '(sizeof, member offsets and array lengths of unrelated declarations change); a modified type must be a fresh object (array_of/pointer_to/copy_type ...)' % (
+                       fn, fld, rec, what_shared), where=where, facts={'may-point-to': sorted(str(a) for a in atoms)})
+    for (un, fn), calls in sorted(own.calls.items()):
+        for callee, i, fields, atoms, line in sorted(calls, key=lambda x: (x[0], x[1])):
+            fields = sorted('%s.%s' % f for f in fields if f[1] not in _NOT_DESCRIPTIVE)
+            if not fields:
+                continue
+            key = '%s:%s:owned-object-write/%s(%s)' % (un, fn, callee, pname(callee, i))
+            where = '%s:%d' % (un, line)
+            if not atoms:
+                continue            # a null argument
+            rep.ob('R08.6', key, SHARED not in atoms,
+                   '%s() hands %s() as `%s` %s; %s() stores into it (%s): the change is seen by every other user of the same type object' % (
+                       fn, callee, pname(callee, i), what_shared.replace('it did not create', '%s() did not create' % fn), callee, ', '.join(fields)),
+                   where=where, facts={'may-point-to': sorted(str(a) for a in atoms), 'fields': fields})
 
 
 # =====================================================================================
